@@ -178,6 +178,43 @@ def gen_stall(rng, n, n_long):
     return out
 
 
+def gen_adapter(rng, n):
+    """ends that are message-oriented transports (the bridge reaches them through streamDataForwarderAdapter), one-sided and
+    two-sided traffic while both ends stay open: what one end sends must arrive although the other end is silent"""
+    out = []
+    combos = [(True, False), (False, True), (True, True), (False, False)]
+    for k in range(n):
+        w0, w1 = combos[k % 4]
+        side = (k // 4) % 3                     # 0: only target->source bytes, 1: only source->target, 2: both
+        def msgs():
+            return [dict(rand_data(rng, rng.choice([1, 5, 64, 900])), e=0) for _ in range(rng.randrange(1, 4))]
+        c = {"mode": "free", "limit": 0, "wrap0": w0, "wrap1": w1, "deliver_ms": 600, "w0": [], "w1": [],
+             "r0": msgs() if side in (1, 2) else [], "r1": msgs() if side in (0, 2) else [], "end0": "hold", "end1": "hold", "sched": []}
+        out.append(c)
+    return out
+
+
+def gen_end_failure(rng, n):
+    """one end FAILS (non-EOF read error) after some bytes while the opposite direction is idle: server bridge (raw and
+    adapter-wrapped ends) and the half-close relay iocopy.Bidirectional"""
+    out = []
+    for k in range(n):
+        data = [dict(rand_data(rng, rng.choice([1, 3, 40, 700])), e=0) for _ in range(rng.randrange(1, 3))]
+        which = k % 2
+        e = 3 if k % 5 else 2
+        if k % 3 == 0:
+            c = {"mode": "relay", "relay": "bidir", "fail_end": which, "fail_e": e, "r0": data if which == 0 else [], "r1": data if which == 1 else []}
+            if rng.random() < 0.3:                      # the listener had sent something earlier, then went idle
+                c["r1" if which == 0 else "r0"] = [dict(rand_data(rng, 7), e=0)]
+        else:
+            fail = data + [{"d": "", "e": e}]
+            w = (k // 2) % 4
+            c = {"mode": "free", "limit": 0, "wrap0": bool(w & 1), "wrap1": bool(w & 2), "w0": [], "w1": [],
+                 "r0": fail if which == 0 else [], "r1": fail if which == 1 else [], "end0": "hold", "end1": "hold", "sched": []}
+        out.append(c)
+    return out
+
+
 def gen_backpressure(rng, n):
     """one peer sends while the other does not read (the bridge's write parks in the connection), then the sender goes away"""
     out = []
@@ -302,6 +339,10 @@ def classify(c, o, sliced):
         return KNOWN_KEY
     if key == "reattach":
         return "reattach-bytes-to-stale-end" if "did not reach the attached source end" in (o.get("prop_msg") or "") else "reattach-tunnel-broken"
+    if key == "stalled":
+        return "direction-waits-for-opposite-end"
+    if key == "stuck" and c["mode"] == "relay":
+        return "relay-closure-not-propagated"
     if key == "registry-parked":
         return STALL_KEY
     if key == "stuck" and c["mode"] == "stall":
@@ -370,6 +411,8 @@ def run(ctx, only_cases=None):
         cases += gen_stall(rng, 60 if thorough else 12, 6 if thorough else 2)
         cases += gen_backpressure(rng, 20 if thorough else 4)
         cases += gen_reattach(rng, 300 if thorough else 30)
+        cases += gen_adapter(rng, 48 if thorough else 12)
+        cases += gen_end_failure(rng, 60 if thorough else 12)
     # the start race can kill the harness process (nil dereference inside a goroutine of Bridge.Start): own process
     race_cases = [c for c in cases if c["mode"] == "startrace"]
     cases = [c for c in cases if c["mode"] != "startrace"]
@@ -451,11 +494,21 @@ def run(ctx, only_cases=None):
             "write_faults": 0, "read_timeouts": 0, "read_errors": 0, "cancelled": 0, "both_directions_carry_data": 0,
             "bytes_through_real_code": 0, "closer_direction_0": 0, "closer_direction_1": 0, "duplicate_tunnel_ids": 0,
             "stats_backend_stalled": 0, "final_report_parked": 0, "forget_required_while_parked": 0,
-            "write_parked_at_teardown": 0, "source_reattach_histories": 0, "reattaches": 0}
+            "write_parked_at_teardown": 0, "source_reattach_histories": 0, "reattaches": 0,
+            "adapter_wrapped_end": 0, "one_sided_traffic_both_ends_open": 0, "end_fails_non_eof": 0, "half_close_relay": 0}
     for c, o in zip(cases, outs):
         h = hashlib.sha256(json.dumps(c, sort_keys=True).encode()).hexdigest()
         distinct.add(h)
         m = c["mode"]
+        dist["adapter_wrapped_end"] += bool(c.get("wrap0") or c.get("wrap1"))
+        dist["one_sided_traffic_both_ends_open"] += m == "free" and bool(c.get("deliver_ms")) and (not c.get("r0") or not c.get("r1"))
+        dist["end_fails_non_eof"] += (m == "relay" and c.get("fail_e") == 3) or (m == "free" and any(r["e"] == 3 for r in c.get("r0", []) + c.get("r1", [])))
+        if m == "relay":
+            dist["half_close_relay"] += 1
+            dist["bytes_through_real_code"] += o.get("len0", 0) + o.get("len1", 0)
+            if o.get("returned"):
+                nontrivial.add(h)
+            continue
         if m in ("backpressure", "reattach"):
             dist["write_parked_at_teardown"] += m == "backpressure"
             dist["source_reattach_histories"] += m == "reattach"
@@ -508,7 +561,11 @@ def run(ctx, only_cases=None):
                 "the report was parked and both ends were closed meanwhile. backpressure cases: a write of the bridge is parked inside the connection "
                 "(peer not reading) when the sending peer goes away; teardown (both ends closed, tunnel forgotten) is required before the write is "
                 "drained. reattach cases: histories of tsend/ssend/SetSourceConnection(new)/old connection ends/end on a live bridge; every end must "
-                "have received exactly the bytes sent while it was attached; non-trivial = the tunnel ended and was forgotten.",
+                "have received exactly the bytes sent while it was attached; non-trivial = the tunnel ended and was forgotten. adapter cases: ends that are "
+                "message transports (reached through streamDataForwarderAdapter; ReadAvailable idles out after 1.5 s like the real one after 5 s), one-sided "
+                "traffic while both ends stay open must arrive within 0.6 s. end-failure cases: a non-EOF read error on one end after some bytes while the "
+                "opposite direction is idle — server bridge (raw and adapter ends; the bridge must end without help) and the half-close relay "
+                "iocopy.Bidirectional (the listening peer must see a half-close/closure, then the relay must return).",
         "samples": [{"case": brief(cases[i]), "observed": {k: v for k, v in outs[i].items() if k in ("prop_ok", "len0", "len1", "cnt0", "cnt1", "closer", "order", "life", "nrd", "nwr", "total")}} for i in pick],
         "model_vs_impl_cases": len(terms), "model_vs_impl_mismatches": len(mism), "impl_property_failures": nfail,
         "input_distribution": dist, "generated_file_changed": gen_changed,
